@@ -245,7 +245,10 @@ class Check(BaseCheck):
         top = D(9999, 12, 31, 23, 59, 59)
         a, b = self.rand_dt(rnd), self.rand_dt(rnd)
         if rnd.random() < 0.4:      # same or neighbouring day: the fractions decide
-            b = D.fromordinal(a.toordinal() + rnd.choice([0, 0, 1, -1])) + (self.rand_dt(rnd) - D.min) % datetime.timedelta(days=1)
+            try:
+                b = D.fromordinal(a.toordinal() + rnd.choice([0, 0, 1, -1])) + (self.rand_dt(rnd) - D.min) % datetime.timedelta(days=1)
+            except (OverflowError, ValueError):     # the day after 9999-12-31 / before 0001-01-01 does not exist
+                return
         if not (MARCH1 <= a <= top and MARCH1 <= b <= top):
             return
         if rnd.random() < 0.5:      # whole seconds, so that the text forms carry the same instant
